@@ -568,6 +568,8 @@ class SymbolValue(Value):
         if symbol.is_numeric():
             return NumericValue(-symbol.int if symbol.is_negative() else symbol.int)
 
+        raise ValueError("[{}] cannot be resolved to a value".format(self.value))
+
     def is_8_bit(self):
         return False
 
